@@ -7,6 +7,7 @@ import (
 
 	"golang.org/x/tools/go/ssa"
 
+	"gosym/nat"
 	"gosym/term"
 )
 
@@ -79,10 +80,23 @@ type s2Writer struct {
 }
 
 type s2Reader struct {
+	err     value
 	src     iface
 	loaded  bool
 	content []value
 	pos     int
+}
+
+func concreteBytes(vs []value) ([]byte, bool) {
+	out := make([]byte, len(vs))
+	for i, v := range vs {
+		c, ok := v.(*term.Term).ConstVal()
+		if !ok {
+			return nil, false
+		}
+		out[i] = byte(c)
+	}
+	return out, true
 }
 
 func leBytes(m *Machine, t *term.Term) []value {
@@ -221,6 +235,16 @@ func (m *Machine) envIntrinsics() {
 		"(*github.com/klauspost/compress/s2.Writer).Close": func(m *Machine, fr *frame, a []value) value {
 			w := (*a[0].(*value)).(*s2Writer)
 			n := len(w.buf)
+			if raw, ok := concreteBytes(w.buf); ok && !m.StubS2 {
+				// concrete content: the real s2 encoder, so files are byte-identical to the real build's
+				enc := nat.S2Encode(raw)
+				out := make([]value, len(enc))
+				for i, b := range enc {
+					out[i] = m.st.BV(8, uint64(b))
+				}
+				res := m.callMethod(w.dst, "Write", out).(tuple)
+				return res[1]
+			}
 			frame := []value{m.st.BV(8, 0x53), m.st.BV(8, 0x32)}
 			frame = append(frame, leBytes(m, m.st.BV(32, uint64(n)))...)
 			frame = append(frame, w.buf...)
@@ -249,8 +273,44 @@ func (m *Machine) envIntrinsics() {
 						break
 					}
 				}
-				// parse concatenated frames
+				// parse concatenated streams: real s2 streams (concrete) and stub frames
 				for len(raw) > 0 {
+					if c, ok := raw[0].(*term.Term).ConstVal(); !ok || c != 0x53 {
+						// a real s2 stream: walk its chunks (type byte + 24-bit LE length) up to the
+						// next stub frame or the end, and decode that region with the real reader
+						end := 0
+						for end < len(raw) {
+							if t, ok := raw[end].(*term.Term).ConstVal(); ok && t == 0x53 {
+								break
+							}
+							if end+4 > len(raw) {
+								end = len(raw)
+								break
+							}
+							hdr, ok := concreteBytes(raw[end : end+4])
+							if !ok {
+								panic("s2 reader: symbolic chunk header in a real s2 stream")
+							}
+							end += 4 + int(hdr[1]) + int(hdr[2])<<8 + int(hdr[3])<<16
+						}
+						if end > len(raw) {
+							end = len(raw)
+						}
+						region, ok := concreteBytes(raw[:end])
+						if !ok {
+							panic("s2 reader: symbolic byte inside a real s2 stream")
+						}
+						dec, err := nat.S2Decode(region)
+						for _, b := range dec {
+							r.content = append(r.content, m.st.BV(8, uint64(b)))
+						}
+						if err != nil {
+							r.err = m.errVal("s2: " + err.Error())
+							break
+						}
+						raw = raw[end:]
+						continue
+					}
 					if len(raw) < 6 {
 						return tuple{m.st.BV(64, 0), m.pkgVar("io", "ErrUnexpectedEOF")}
 					}
@@ -261,6 +321,9 @@ func (m *Machine) envIntrinsics() {
 				}
 			}
 			if r.pos >= len(r.content) {
+				if r.err != nil {
+					return tuple{m.st.BV(64, 0), r.err}
+				}
 				return tuple{m.st.BV(64, 0), m.pkgVar("io", "EOF")}
 			}
 			n := copy(p, r.content[r.pos:])
